@@ -2,6 +2,7 @@ package rules
 
 import (
 	"fmt"
+	"sort"
 	"strings"
 
 	"golang.org/x/tools/go/ssa"
@@ -19,6 +20,8 @@ func checkC19(r *core.Run) {
 	r.Rule("G-fish: every store write in the two handlers <= GetNode(msg.Creator) found AND (msg.Creator listed in FishmenInfo OR, for recovery, msg.Creator == msg.Provider with the storage status bit)")
 	r.Rule("G-fault: SetFault in ReportFaults <= provider match AND metadata found AND order found AND data id match AND shard listed AND shard found AND shard.Sp == fault.Provider AND shard unexpired")
 	r.Rule("G-selfrec: status := Recovering <= msg.Provider == msg.Creator AND stored fault.Provider == msg.Creator; pledge written is GetPledge(fault.Provider)")
+	r.Rule("T-keyparams: every store-key constructor encodes all of its parameters (the provider+shard fault index is keyed by both)")
+	ruleKeyParams(r, "T-keyparams")
 	r.Rule("CAP-period: Shard.CreatedAt / Shard.Duration are assigned only in Complete and in the expiry roll-over; an assigned-but-unserved shard has no period, which is what the report filter's unexpired test relies on to mean 'the accused holds it'")
 	rulePeriodWriters(r, "CAP-period")
 	r.Assume(aDeps)
@@ -159,4 +162,48 @@ func rulePeriodWriters(r *core.Run, id string) {
 	}
 	r.Floor("period_writer_functions", len(writers), 2)
 	r.Count("period_writer_roots", n)
+}
+
+// ruleKeyParams (T-keyparams): every store-key constructor of the module
+// (x/*/types: func …Key(args) []byte) uses each of its parameters. A key that
+// silently ignores a component (the provider in the provider+shard fault index)
+// makes records of different owners share an entry: a lookup "for provider P"
+// then reads — and the self-healing branches of the lookups delete — another
+// provider's record.
+func ruleKeyParams(r *core.Run, id string) {
+	n := 0
+	var fs []*ssa.Function
+	for _, f := range r.P.Funcs {
+		if f.Pkg == nil || !strings.HasSuffix(f.Pkg.Pkg.Path(), "/types") || r.P.IsGenerated(f) {
+			continue
+		}
+		if !strings.HasSuffix(f.Name(), "Key") || f.Signature.Recv() != nil || f.Signature.Results().Len() != 1 {
+			continue
+		}
+		if f.Signature.Results().At(0).Type().String() != "[]byte" {
+			continue
+		}
+		fs = append(fs, f)
+	}
+	sort.Slice(fs, func(i, j int) bool { return r.P.Name(fs[i]) < r.P.Name(fs[j]) })
+	for _, f := range fs {
+		for _, p := range f.Params {
+			n++
+			key := core.Key(id, r.P.Name(f), p.Name())
+			used := false
+			if refs := p.Referrers(); refs != nil {
+				for _, ref := range *refs {
+					if _, dbg := ref.(*ssa.DebugRef); !dbg {
+						used = true
+					}
+				}
+			}
+			if used {
+				r.Discharge(id, key, r.P.FuncPos(f), "key component is encoded into the key")
+			} else {
+				r.Violate(id, key, r.P.FuncPos(f), fmt.Sprintf("store-key constructor %s ignores its parameter %s: records that differ only in %s share one entry, so code that looks a record up \"for\" one %s reads (and, in the self-healing lookups, deletes) the record of another", r.P.Name(f), p.Name(), p.Name(), p.Name()))
+			}
+		}
+	}
+	r.Floor("key_constructor_params", n, 20)
 }
